@@ -1400,7 +1400,7 @@ class System:
 
     def addPackage(self, package_path: Path, parentPackage: Optional[_PackageT] = None) -> None:
         package = self.analyzeModule(
-            package_path / '__init__.py', package_path.name, parentPackage, is_package=True)
+            package_path / '__init__.py', astutils.encodable_text(package_path.name), parentPackage, is_package=True)
 
         for path in sorted(package_path.iterdir()):
             if path.is_dir():
@@ -1414,7 +1414,8 @@ class System:
         for suffix in importlib.machinery.all_suffixes():
             if not name.endswith(suffix):
                 continue
-            module_name = name[:-len(suffix)]
+            # (a file name that is not valid UTF-8 reaches us with surrogate escapes, which can't be written to a page)
+            module_name = astutils.encodable_text(name[:-len(suffix)])
             if suffix in importlib.machinery.EXTENSION_SUFFIXES:
                 if self.options.introspect_c_modules:
                     self.introspectModule(path, module_name, package)
